@@ -243,6 +243,15 @@ func Main(engine string, run RunFunc) (exit int) {
 			}
 		}
 		return 0
+	case "trace":
+		seed := uint64(envInt("VERIF_SEED", 1))*1_000_000 + uint64(envInt("VERIF_FIRST", 0))
+		res, _ := safeRun(run, &Env{Ch: choice.NewSeeded(seed), Props: props, Tier: tier, Variant: rep.Variant, Verbose: true, Known: known})
+		for _, l := range res.Log {
+			fmt.Println(l)
+		}
+		fmt.Printf("seed %d: violation=%v stats=%v steps=%d simtime=%v nontrivial=%v\n", seed, res.Violation, res.Stats, res.Steps, res.SimTime, res.NonTrivial)
+		rep.Runs = 1
+		return 0
 	case "hash":
 		// determinism self-test: run the given seeds and print one event-log hash per seed
 		base := uint64(envInt("VERIF_SEED", 1))
